@@ -178,47 +178,89 @@ package gostatsd
 // The closures of Split put one series into the shard chosen by Bucket and touch no other
 // series (of that shard, by the postcondition; of other shards, by the frame).
 //@ func (*MetricMap).Split$1
-//@   iter invariant shardsOK(maps, count)
+//@   iter invariant shardSlice(maps, count) && shardsOKC(maps, count) && innerDistinctC(maps, count) && routedOnlyC(maps, count)
+//@   iter invariant (forall i int :: 0 <= i && i < count ==> pfresh(maps[i].Counters)) && (forall i int, n string :: 0 <= i && i < count && n in maps[i].Counters ==> pfresh(maps[i].Counters[n]))
+//@   iter invariant forall n string :: (n in iter) == old(n in iter) && iter[n] == old(iter[n])
+//@   iter invariant forall n string, t string :: n in iter ==> (t in iter[n]) == old(t in iter[n]) && iter[n][t] == old(iter[n][t])
 //@   requires 1 <= count && count <= 4294967295 && len(maps) == count
 //@   requires maps[bucketSpec(metricName, tagsKey, count)] != nil && wfdCounters(maps[bucketSpec(metricName, tagsKey, count)].Counters)
 //@   ensures  wfdCounters(maps[bucketSpec(metricName, tagsKey, count)].Counters) && maps[bucketSpec(metricName, tagsKey, count)].Counters == old(maps[bucketSpec(metricName, tagsKey, count)].Counters)
 //@   ensures  [route] hasC(maps[bucketSpec(metricName, tagsKey, count)], metricName, tagsKey) && maps[bucketSpec(metricName, tagsKey, count)].Counters[metricName][tagsKey] == c
 //@   ensures  [route] forall n string, t string :: (n != metricName || t != tagsKey) ==> hasC(maps[bucketSpec(metricName, tagsKey, count)], n, t) == old(hasC(maps[bucketSpec(metricName, tagsKey, count)], n, t)) && (hasC(maps[bucketSpec(metricName, tagsKey, count)], n, t) ==> maps[bucketSpec(metricName, tagsKey, count)].Counters[n][t] == old(maps[bucketSpec(metricName, tagsKey, count)].Counters[n][t]))
+//@   ensures  old(metricName in maps[bucketSpec(metricName, tagsKey, count)].Counters) ==> maps[bucketSpec(metricName, tagsKey, count)].Counters[metricName] == old(maps[bucketSpec(metricName, tagsKey, count)].Counters[metricName])
+//@   ensures  !old(metricName in maps[bucketSpec(metricName, tagsKey, count)].Counters) ==> fresh(maps[bucketSpec(metricName, tagsKey, count)].Counters[metricName])
+//@   ensures  forall n string :: n != metricName ==> (n in maps[bucketSpec(metricName, tagsKey, count)].Counters) == old(n in maps[bucketSpec(metricName, tagsKey, count)].Counters) && maps[bucketSpec(metricName, tagsKey, count)].Counters[n] == old(maps[bucketSpec(metricName, tagsKey, count)].Counters[n])
 //@   modifies maps[bucketSpec(metricName, tagsKey, count)].Counters[*], maps[bucketSpec(metricName, tagsKey, count)].Counters[metricName][*]
 
 //@ func (*MetricMap).Split$2
-//@   iter invariant shardsOK(maps, count)
+//@   iter invariant shardSlice(maps, count) && shardsOKG(maps, count) && innerDistinctG(maps, count) && routedOnlyG(maps, count)
+//@   iter invariant (forall i int :: 0 <= i && i < count ==> pfresh(maps[i].Gauges)) && (forall i int, n string :: 0 <= i && i < count && n in maps[i].Gauges ==> pfresh(maps[i].Gauges[n]))
+//@   iter invariant forall n string :: (n in iter) == old(n in iter) && iter[n] == old(iter[n])
+//@   iter invariant forall n string, t string :: n in iter ==> (t in iter[n]) == old(t in iter[n]) && iter[n][t] == old(iter[n][t])
 //@   requires 1 <= count && count <= 4294967295 && len(maps) == count
 //@   requires maps[bucketSpec(metricName, tagsKey, count)] != nil && wfdGauges(maps[bucketSpec(metricName, tagsKey, count)].Gauges)
 //@   ensures  wfdGauges(maps[bucketSpec(metricName, tagsKey, count)].Gauges) && maps[bucketSpec(metricName, tagsKey, count)].Gauges == old(maps[bucketSpec(metricName, tagsKey, count)].Gauges)
 //@   ensures  [route] hasG(maps[bucketSpec(metricName, tagsKey, count)], metricName, tagsKey) && maps[bucketSpec(metricName, tagsKey, count)].Gauges[metricName][tagsKey] == g
 //@   ensures  [route] forall n string, t string :: (n != metricName || t != tagsKey) ==> hasG(maps[bucketSpec(metricName, tagsKey, count)], n, t) == old(hasG(maps[bucketSpec(metricName, tagsKey, count)], n, t)) && (hasG(maps[bucketSpec(metricName, tagsKey, count)], n, t) ==> maps[bucketSpec(metricName, tagsKey, count)].Gauges[n][t] == old(maps[bucketSpec(metricName, tagsKey, count)].Gauges[n][t]))
+//@   ensures  old(metricName in maps[bucketSpec(metricName, tagsKey, count)].Gauges) ==> maps[bucketSpec(metricName, tagsKey, count)].Gauges[metricName] == old(maps[bucketSpec(metricName, tagsKey, count)].Gauges[metricName])
+//@   ensures  !old(metricName in maps[bucketSpec(metricName, tagsKey, count)].Gauges) ==> fresh(maps[bucketSpec(metricName, tagsKey, count)].Gauges[metricName])
+//@   ensures  forall n string :: n != metricName ==> (n in maps[bucketSpec(metricName, tagsKey, count)].Gauges) == old(n in maps[bucketSpec(metricName, tagsKey, count)].Gauges) && maps[bucketSpec(metricName, tagsKey, count)].Gauges[n] == old(maps[bucketSpec(metricName, tagsKey, count)].Gauges[n])
 //@   modifies maps[bucketSpec(metricName, tagsKey, count)].Gauges[*], maps[bucketSpec(metricName, tagsKey, count)].Gauges[metricName][*]
 
 //@ func (*MetricMap).Split$3
-//@   iter invariant shardsOK(maps, count)
+//@   iter invariant shardSlice(maps, count) && shardsOKT(maps, count) && innerDistinctT(maps, count) && routedOnlyT(maps, count)
+//@   iter invariant (forall i int :: 0 <= i && i < count ==> pfresh(maps[i].Timers)) && (forall i int, n string :: 0 <= i && i < count && n in maps[i].Timers ==> pfresh(maps[i].Timers[n]))
+//@   iter invariant forall n string :: (n in iter) == old(n in iter) && iter[n] == old(iter[n])
+//@   iter invariant forall n string, t string :: n in iter ==> (t in iter[n]) == old(t in iter[n]) && iter[n][t] == old(iter[n][t])
 //@   requires 1 <= count && count <= 4294967295 && len(maps) == count
 //@   requires maps[bucketSpec(metricName, tagsKey, count)] != nil && wfdTimers(maps[bucketSpec(metricName, tagsKey, count)].Timers)
 //@   ensures  wfdTimers(maps[bucketSpec(metricName, tagsKey, count)].Timers) && maps[bucketSpec(metricName, tagsKey, count)].Timers == old(maps[bucketSpec(metricName, tagsKey, count)].Timers)
 //@   ensures  [route] hasT(maps[bucketSpec(metricName, tagsKey, count)], metricName, tagsKey) && maps[bucketSpec(metricName, tagsKey, count)].Timers[metricName][tagsKey] == t
 //@   ensures  [route] forall n string, tk string :: (n != metricName || tk != tagsKey) ==> hasT(maps[bucketSpec(metricName, tagsKey, count)], n, tk) == old(hasT(maps[bucketSpec(metricName, tagsKey, count)], n, tk)) && (hasT(maps[bucketSpec(metricName, tagsKey, count)], n, tk) ==> maps[bucketSpec(metricName, tagsKey, count)].Timers[n][tk] == old(maps[bucketSpec(metricName, tagsKey, count)].Timers[n][tk]))
+//@   ensures  old(metricName in maps[bucketSpec(metricName, tagsKey, count)].Timers) ==> maps[bucketSpec(metricName, tagsKey, count)].Timers[metricName] == old(maps[bucketSpec(metricName, tagsKey, count)].Timers[metricName])
+//@   ensures  !old(metricName in maps[bucketSpec(metricName, tagsKey, count)].Timers) ==> fresh(maps[bucketSpec(metricName, tagsKey, count)].Timers[metricName])
+//@   ensures  forall n string :: n != metricName ==> (n in maps[bucketSpec(metricName, tagsKey, count)].Timers) == old(n in maps[bucketSpec(metricName, tagsKey, count)].Timers) && maps[bucketSpec(metricName, tagsKey, count)].Timers[n] == old(maps[bucketSpec(metricName, tagsKey, count)].Timers[n])
 //@   modifies maps[bucketSpec(metricName, tagsKey, count)].Timers[*], maps[bucketSpec(metricName, tagsKey, count)].Timers[metricName][*]
 
 //@ func (*MetricMap).Split$4
-//@   iter invariant shardsOK(maps, count)
+//@   iter invariant shardSlice(maps, count) && shardsOKS(maps, count) && innerDistinctS(maps, count) && routedOnlyS(maps, count)
+//@   iter invariant (forall i int :: 0 <= i && i < count ==> pfresh(maps[i].Sets)) && (forall i int, n string :: 0 <= i && i < count && n in maps[i].Sets ==> pfresh(maps[i].Sets[n]))
+//@   iter invariant forall n string :: (n in iter) == old(n in iter) && iter[n] == old(iter[n])
+//@   iter invariant forall n string, t string :: n in iter ==> (t in iter[n]) == old(t in iter[n]) && iter[n][t] == old(iter[n][t])
 //@   requires 1 <= count && count <= 4294967295 && len(maps) == count
 //@   requires maps[bucketSpec(metricName, tagsKey, count)] != nil && wfdSets(maps[bucketSpec(metricName, tagsKey, count)].Sets)
 //@   ensures  wfdSets(maps[bucketSpec(metricName, tagsKey, count)].Sets) && maps[bucketSpec(metricName, tagsKey, count)].Sets == old(maps[bucketSpec(metricName, tagsKey, count)].Sets)
 //@   ensures  [route] hasS(maps[bucketSpec(metricName, tagsKey, count)], metricName, tagsKey) && maps[bucketSpec(metricName, tagsKey, count)].Sets[metricName][tagsKey] == s
 //@   ensures  [route] forall n string, t string :: (n != metricName || t != tagsKey) ==> hasS(maps[bucketSpec(metricName, tagsKey, count)], n, t) == old(hasS(maps[bucketSpec(metricName, tagsKey, count)], n, t)) && (hasS(maps[bucketSpec(metricName, tagsKey, count)], n, t) ==> maps[bucketSpec(metricName, tagsKey, count)].Sets[n][t] == old(maps[bucketSpec(metricName, tagsKey, count)].Sets[n][t]))
+//@   ensures  old(metricName in maps[bucketSpec(metricName, tagsKey, count)].Sets) ==> maps[bucketSpec(metricName, tagsKey, count)].Sets[metricName] == old(maps[bucketSpec(metricName, tagsKey, count)].Sets[metricName])
+//@   ensures  !old(metricName in maps[bucketSpec(metricName, tagsKey, count)].Sets) ==> fresh(maps[bucketSpec(metricName, tagsKey, count)].Sets[metricName])
+//@   ensures  forall n string :: n != metricName ==> (n in maps[bucketSpec(metricName, tagsKey, count)].Sets) == old(n in maps[bucketSpec(metricName, tagsKey, count)].Sets) && maps[bucketSpec(metricName, tagsKey, count)].Sets[n] == old(maps[bucketSpec(metricName, tagsKey, count)].Sets[n])
 //@   modifies maps[bucketSpec(metricName, tagsKey, count)].Sets[*], maps[bucketSpec(metricName, tagsKey, count)].Sets[metricName][*]
 
-//@ pred shardsOK(maps []*MetricMap, count int) := len(maps) == count && 1 <= count && count <= 4294967295 && (forall i int :: 0 <= i && i < count ==> maps[i] != nil && wfdCounters(maps[i].Counters) && wfdGauges(maps[i].Gauges) && wfdTimers(maps[i].Timers) && wfdSets(maps[i].Sets))
+// routedOnly*: shard i holds only series whose bucket is i
+//@ pred innerDistinctC(maps []*MetricMap, count int) := forall i int, j int, n1 string, n2 string :: 0 <= i && i < count && 0 <= j && j < count && i != j && n1 in maps[i].Counters && n2 in maps[j].Counters ==> maps[i].Counters[n1] != maps[j].Counters[n2]
+//@ pred routedOnlyC(maps []*MetricMap, count int) := forall i int, n string, t string :: 0 <= i && i < count && hasC(maps[i], n, t) ==> i == bucketSpec(n, t, count)
+//@ pred innerDistinctG(maps []*MetricMap, count int) := forall i int, j int, n1 string, n2 string :: 0 <= i && i < count && 0 <= j && j < count && i != j && n1 in maps[i].Gauges && n2 in maps[j].Gauges ==> maps[i].Gauges[n1] != maps[j].Gauges[n2]
+//@ pred routedOnlyG(maps []*MetricMap, count int) := forall i int, n string, t string :: 0 <= i && i < count && hasG(maps[i], n, t) ==> i == bucketSpec(n, t, count)
+//@ pred innerDistinctT(maps []*MetricMap, count int) := forall i int, j int, n1 string, n2 string :: 0 <= i && i < count && 0 <= j && j < count && i != j && n1 in maps[i].Timers && n2 in maps[j].Timers ==> maps[i].Timers[n1] != maps[j].Timers[n2]
+//@ pred routedOnlyT(maps []*MetricMap, count int) := forall i int, n string, t string :: 0 <= i && i < count && hasT(maps[i], n, t) ==> i == bucketSpec(n, t, count)
+//@ pred innerDistinctS(maps []*MetricMap, count int) := forall i int, j int, n1 string, n2 string :: 0 <= i && i < count && 0 <= j && j < count && i != j && n1 in maps[i].Sets && n2 in maps[j].Sets ==> maps[i].Sets[n1] != maps[j].Sets[n2]
+//@ pred routedOnlyS(maps []*MetricMap, count int) := forall i int, n string, t string :: 0 <= i && i < count && hasS(maps[i], n, t) ==> i == bucketSpec(n, t, count)
+// shape of the shard slice, shared by the four closures
+//@ pred shardSlice(maps []*MetricMap, count int) := len(maps) == count && 1 <= count && count <= 4294967295 && (forall i int :: 0 <= i && i < count ==> maps[i] != nil) && (forall i int, j int :: 0 <= i && i < count && 0 <= j && j < count && i != j ==> maps[i] != maps[j])
+//@ pred shardsOKC(maps []*MetricMap, count int) := (forall i int :: 0 <= i && i < count ==> wfdCounters(maps[i].Counters)) && (forall i int, j int :: 0 <= i && i < count && 0 <= j && j < count && i != j ==> maps[i].Counters != maps[j].Counters)
+//@ pred shardsOKG(maps []*MetricMap, count int) := (forall i int :: 0 <= i && i < count ==> wfdGauges(maps[i].Gauges)) && (forall i int, j int :: 0 <= i && i < count && 0 <= j && j < count && i != j ==> maps[i].Gauges != maps[j].Gauges)
+//@ pred shardsOKT(maps []*MetricMap, count int) := (forall i int :: 0 <= i && i < count ==> wfdTimers(maps[i].Timers)) && (forall i int, j int :: 0 <= i && i < count && 0 <= j && j < count && i != j ==> maps[i].Timers != maps[j].Timers)
+//@ pred shardsOKS(maps []*MetricMap, count int) := (forall i int :: 0 <= i && i < count ==> wfdSets(maps[i].Sets)) && (forall i int, j int :: 0 <= i && i < count && 0 <= j && j < count && i != j ==> maps[i].Sets != maps[j].Sets)
 
 //@ func (*MetricMap).Split
 //@   requires mm != nil && 1 <= count && count <= 4294967295
 //@   requires wfdCounters(mm.Counters) && wfdGauges(mm.Gauges) && wfdTimers(mm.Timers) && wfdSets(mm.Sets)
 //@   ensures  len(result) == count && (forall i int :: 0 <= i && i < count ==> result[i] != nil)
+//@   ensures  [unchanged] mm.Counters == old(mm.Counters) && mm.Gauges == old(mm.Gauges) && mm.Timers == old(mm.Timers) && mm.Sets == old(mm.Sets)
+//@   ensures  [route] routedOnlyC(result, count) && routedOnlyG(result, count) && routedOnlyT(result, count) && routedOnlyS(result, count)
+//@   loop 1 invariant forall j int :: 0 <= j && j < i ==> fresh(maps[j].Counters) && fresh(maps[j].Gauges) && fresh(maps[j].Timers) && fresh(maps[j].Sets)
+//@   loop 1 invariant forall j int :: 0 <= j && j < i ==> allocated(maps[j]) && (forall n string :: !(n in maps[j].Counters) && !(n in maps[j].Gauges) && !(n in maps[j].Timers) && !(n in maps[j].Sets))
+//@   loop 1 invariant forall j int, k int :: 0 <= j && j < i && 0 <= k && k < i && j != k ==> maps[j] != maps[k] && maps[j].Counters != maps[k].Counters && maps[j].Gauges != maps[k].Gauges && maps[j].Timers != maps[k].Timers && maps[j].Sets != maps[k].Sets
 //@   loop 1 invariant 0 <= i && i <= count && len(maps) == count
 //@   loop 1 invariant forall j int :: 0 <= j && j < i ==> maps[j] != nil && wfdCounters(maps[j].Counters) && wfdGauges(maps[j].Gauges) && wfdTimers(maps[j].Timers) && wfdSets(maps[j].Sets)
-//@   modifies everything
